@@ -7,15 +7,16 @@ from . import selast as S
 
 TAGS = ('a', 'p', 'div', 'span', 'input', 'form', 'button', 'select', 'option', 'textarea', 'fieldset', 'legend',
         'iframe', 'html', 'body', 'svg', 'circle', 'progress', 'optgroup', 'area', 'bdi', 'my-el', 'li', 'ul')
-IDS = ('i1', 'i2', 'i3', 'x')
-CLASSES = ('k', 'm', 'K')
+# the last entries hold code points next to the boundaries a decoder may special-case (DEL/C1, surrogate block, BMP end, last code point)
+IDS = ('i1', 'i2', 'i3', 'x', '\ue000x')
+CLASSES = ('k', 'm', 'K', 'icon-\ue000', '\ud7ff\U0010ffff')
 ATTR_NAMES = ('type', 'title', 'lang', 'dir', 'href', 'class', 'id', 'name', 'data-x', 'value', 'min', 'max',
               'checked', 'disabled', 'placeholder')
 ATTR_VALUES = ('', 'a', 'abc', 'b c', 'x-y', 'text', 'radio', 'checkbox', 'submit', 'number', 'ltr', 'rtl', 'en',
-               'de-DE', '5', 'Abc')
+               'de-DE', '5', 'Abc', '\ue000', 'a\x7f\x80\xa0b', '\uffff\U00010000\ufffd')
 OPS = (None, '=', '~=', '|=', '^=', '$=', '*=', '!=')
 LANGS = ('en', 'de', 'de-DE', '*-DE', 'de-*', '', '*', 'en-US', 'x', 'DE-ch-1996')
-NEEDLES = ('a', 'x y', '', 'abc', 'a"b', "it's", 'a\\b', 'é', ')', ',', 'say "hi"', "it's'", '"', "'", '\\', 'x\\')
+NEEDLES = ('a', 'x y', '', 'abc', 'a"b', "it's", 'a\\b', 'é', ')', ',', 'say "hi"', "it's'", '"', "'", '\\', 'x\\', '\ue000', '\ud7ff \U0010ffff')
 STATE = tuple(n for n in S.SIMPLE if n not in ('scope',))
 
 
